@@ -86,6 +86,10 @@ BAD_TEMPLATES = [
     ("todo", "func Bad%d(x uint64) uint64 {\n\tswitch x {\n\tcase 1:\n\t\treturn 2\n\t}\n\treturn 3\n}\n"),
     ("future", "func Bad%d(x uint64) uint64 {\n\tif x == 0 {\n\t\treturn 1\n\t} else {\n\t\tx = 2\n\t}\n\treturn x\n}\n"),
     ("future", "func Bad%d(a bool, b bool) uint64 {\n\tif a {\n\t\treturn 1\n\t} else if b {\n\t\treturn 2\n\t}\n\treturn 3\n}\n"),
+    # several declarations that fail on the SAME type: each error belongs to its own declaration
+    ("todo", "func Bad%d(x int) uint64 {\n\treturn 1\n}\n"),
+    ("unsupported", "func Bad%d(y float64) uint64 {\n\treturn 2\n}\n"),
+    ("todo", "type Bad%d struct {\n\tf int\n}\n"),
 ]
 GOOD_TEMPLATE = "func Good%d(x uint64) uint64 {\n\treturn x + %d\n}\n"
 
@@ -129,6 +133,9 @@ def crash_site(stderr):
     """(innermost goose frame, normalised message) of a Go panic trace."""
     msg = ""
     for l in stderr.splitlines():
+        if l.startswith("fatal error:"):
+            msg = l.strip()
+            break
         if l.startswith("panic:"):
             msg = re.sub(r"0x[0-9a-f]+", "0x…", l[6:].strip())
             msg = re.sub(r"\[recovered\]", "", msg).strip()
@@ -241,9 +248,10 @@ def check(ctx):
         rnd = random.Random(ctx.seed)
         for k in range(12 if ctx.tier == "quick" else 200):
             decls, kinds = [], []
-            for i in range(rnd.randrange(3, 9)):
+            # every fourth package is large: more failing declarations than any small limit on the error list
+            for i in range(rnd.randrange(3, 9) if k % 4 else rnd.randrange(24, 40)):
                 if rnd.random() < 0.5:
-                    cat, t = rnd.choice(BAD_TEMPLATES) if rnd.random() < 0.5 else BAD_TEMPLATES[0]
+                    cat, t = rnd.choice(BAD_TEMPLATES) if rnd.random() < 0.7 else BAD_TEMPLATES[0]
                     decls.append(t % i)
                     kinds.append(cat)
                 else:
@@ -284,6 +292,29 @@ def check(ctx):
                               observed={"problem": problem, "stderr": err[-1500:]})
             if len(samples) < 1:
                 samples.append({"source": src[:600], "errors": [e[:2] + (e[3],) for e in errs]})
+        # (d) many failing packages in ONE invocation (the per-package workers report errors at the same time):
+        #     no crash, and every package's error count is what it is alone
+        npk, nbad = (6, 150) if ctx.tier == "quick" else (12, 600)
+        many = {}
+        for pi in range(npk):
+            body = "".join(BAD_TEMPLATES[(pi + j) % len(BAD_TEMPLATES)][1] % j + "\n" for j in range(nbad))
+            many["w%d" % pi] = {"p.go": "package w%d\n\n" % pi + body}
+        root = os.path.join(scratch, "many")
+        gomod.write_module(root, many)
+        for rep in range(3 if ctx.tier == "quick" else 10):
+            rc, out, err = gomod.run_goose(root, ["-ignore-errors"], ["./..."], env_extra={"GOMAXPROCS": str([16, 4, 2][rep % 3])})
+            stats["many_package_runs"] += 1
+            inp = {"packages": "%d packages w0..w%d, each %d failing declarations cycling through the failing templates" % (npk, npk - 1, nbad),
+                   "templates": [t for _, t in BAD_TEMPLATES], "flags": ["-ignore-errors"], "patterns": ["./..."]}
+            if is_crash(rc, err) or "fatal error" in err:
+                crash("many-packages", inp, err)
+                break
+            counts = [int(x) for x in re.findall(r"^(\d+) errors$", err, re.M)]
+            if sorted(counts) != [nbad] * npk and not found:
+                found = True
+                ctx.violation("counterexample", "errors are lost when several failing packages are translated in one invocation",
+                              dict(inp, proto="cli-error"), expected="%d packages × %d errors" % (npk, nbad), observed={"error_counts": counts, "exit": rc, "stderr_tail": err[-800:]})
+        shutil.rmtree(root, ignore_errors=True)
     finally:
         shutil.rmtree(scratch, ignore_errors=True)
     for k, e in known_hits.items():
